@@ -16,7 +16,7 @@ A set-style step on a level that may be primed walks *up* the diagram (‑k ‑ 
 when called at a primed level with relation nodes enabled (D11)."""
 import re
 
-from cfg import Graph
+from cfg import Graph, show_path
 from core import Finding, RuleResult
 from frontend import AnalysisBroken, where, base_name
 
@@ -505,7 +505,7 @@ def rule_diag_fold_total(P):
                 skip = [k for k in p if k.kind == "branch" and k.cond]
                 R.fail(iid, where(f, F.line), Finding(R.rule, f["file"], base_name(f["q"]), "fold@%s" % acc,
                        "an iteration of the row loop (line %d) can return to the loop test without folding into %s%s: the skipped row's diagonal entry (0 for an empty row, which empties the intersection) is left out of the common diagonal" % (
-                           B.line, acc, (" — via the test `%s` at line %d" % (skip[0].cond["text"][:60], skip[0].line)) if skip else ""), F.line, path=p, inst=f["inst"]))
+                           B.line, acc, (" — via the test `%s` at line %d" % (skip[0].cond["text"][:60], skip[0].line)) if skip else ""), F.line, path=show_path(p), inst=f["inst"]))
     if n < 4:
         raise AnalysisBroken("fold.diagonal-covers-rows: expected the 4 common-diagonal folds (sat_relations, transitive_closure, constrained x2), found %d" % n)
     R.require_floor(4, "common-diagonal folds")
